@@ -36,7 +36,7 @@ def run(tier):
     jobs = [dict(fn="props.events:job_no_miss", label="%s/handle_events-no-miss[n=%d]" % (PID, n), kwargs=dict(prop=PID, n=n)) for n in ((1, 2) if tier == "thorough" else (1,))]
     jobs.append(dict(fn="props.events:job_handle_events", label="%s/handle_events[n=1]" % PID, kwargs=dict(prop=PID, n=1)))
     for n, terms, d in EC.configs(tier, "nonterminal"):
-        jobs.append(dict(fn="props.integrate_events:job_events", label="%s/%s" % (PID, IE.config_label(n, terms, d)), kwargs=dict(prop=PID, n=n, terminals=list(terms), direction=d)))
+        jobs.extend(IE.event_jobs(PID, n, terms, d))
     jobs.append(dict(fn="props.integrate_events:job_remove", label=PID + "/DenseOutput", kwargs=dict(prop=PID)))
     EC.obligations_of(reg, R, jobs)
     for name in ("handle_events", "prepare_events", "OdeSystem.integrate", "DenseOutput.add_interpolant", "DenseOutput.remove_interpolant", "DenseOutput.__len__"):
